@@ -348,6 +348,20 @@ def build(sim, typ):
         sil.wtx_plan = lambda kind: 1
         sil.wtx_repeat = None
         d["wtx_forever"] = True
+    elif sim.chance("t4.ack_forever", 0.05):
+        # a card that, after a few regular answers, answers every block with R(ACK) carrying the other block number
+        # ("please send your last I-block again")
+        left = [sim.choose("ackf.after", 8)]
+
+        def ack_forever(data, regular=sil.command):
+            if data and (data[0] & 0xE2 == 0x02 or data[0] & 0xE6 == 0xA2):
+                if left[0] > 0:
+                    left[0] -= 1
+                    return regular(data)
+                return bytes([0xA2 | (~data[0] & 1)])
+            return regular(data)
+        sil.command = ack_forever
+        d["ack_forever"] = True
     d.update(tech=case.tech, file=len(app.files.get(app.ndef_fid, b"")))
     units = len(app.files.get(app.ndef_fid, b"")) // max(1, min(case.mle, 15)) + 64
     # a card that chains its answers in small blocks and asks for waiting time extensions needs that many
@@ -383,7 +397,7 @@ def run_one(sim, params):
         try:
             tag = w.discover()
         except BudgetExceeded as e:
-            raise Violation("unbounded", "%s activate%s" % (typ, " wtx-forever" if desc.get("wtx_forever") else ""), "activation sent more than %d commands; %r" % (bound, desc))
+            raise Violation("unbounded", "%s activate%s" % (typ, " wtx-forever" if desc.get("wtx_forever") else " ack-forever" if desc.get("ack_forever") else ""), "activation sent more than %d commands; %r" % (bound, desc))
         except Exception as e:
             raise Violation("activate-raised", "%s %s" % (typ, core.exc_site(e)),
                             "nfc.tag.activate raised %r (%s); %r" % (e, core.exc_line(e), desc))
@@ -400,7 +414,7 @@ def run_one(sim, params):
                     if ndef is not None:
                         ln, cap, octets = ndef.length, ndef.capacity, ndef.octets
             except BudgetExceeded:
-                raise Violation("unbounded", "%s ndef%s" % (typ, " wtx-forever" if desc.get("wtx_forever") else ""), "reading tag.ndef sent more than %d commands "
+                raise Violation("unbounded", "%s ndef%s" % (typ, " wtx-forever" if desc.get("wtx_forever") else " ack-forever" if desc.get("ack_forever") else ""), "reading tag.ndef sent more than %d commands "
                                 "(tag has %d read units); %r" % (bound, units, desc))
             except Exception as e:
                 raise Violation("ndef-raised", "%s %s%s" % (typ, core.exc_site(e), " (empty response)" if desc["kind"] == "empty" else ""),
